@@ -11,7 +11,7 @@ TOL = 1e-7
 
 
 def h_promotion(sym, typ="promotion", mode="min", T=3, E=8, W=2, max_t=4, grace=1, rf=2, ckpt=True,
-                max_resource_attr=True, concrete_metrics=False, explicit=None):
+                max_resource_attr=True, concrete_metrics=False, explicit=None, B=1):
     from syne_tune.optimizer.schedulers.hyperband import HyperbandScheduler
     from syne_tune.config_space import uniform
 
@@ -27,8 +27,18 @@ def h_promotion(sym, typ="promotion", mode="min", T=3, E=8, W=2, max_t=4, grace=
     cost = typ == "cost_promotion"
     if cost:
         kw["cost_attr"] = "c"
+    if B > 1:
+        kw["brackets"] = B
     sch = make(HyperbandScheduler, cs, **kw)
     levels = ref_rung_levels(grace, max_t, rf=rf, explicit=explicit)
+    nb = min(B, len(levels) + 1)
+    dist = None
+    if B > 1:
+        # brackets share one rung system: the bracket drawn for a request for work decides the first rung level of a NEW trial
+        # (rung b), promotions are looked for in all rungs and go exactly one rung up.  The bracket is a solver variable.
+        from harness.common import OneHotBrackets
+        dist = OneHotBrackets(nb)
+        sch.bracket_distribution = dist
 
     def better(a, b):
         return a < b if mode == "min" else a > b
@@ -46,6 +56,12 @@ def h_promotion(sym, typ="promotion", mode="min", T=3, E=8, W=2, max_t=4, grace=
         if cc == len(running):
             # ---- reference: which promotion is required / allowed now -----------------------
             must, may, lvl_may, ambiguous = None, set(), None, False
+            bq = 0
+            if dist is not None:
+                bq = sym.choice("b%d" % step, nb)
+                dist.next = bq
+                if bq >= 2:
+                    sym.goal("bracket>=2")
             cap = max_t
             if typ == "pasha":
                 cap = sch.terminator._rung_systems[0].current_max_t
@@ -116,9 +132,10 @@ def h_promotion(sym, typ="promotion", mode="min", T=3, E=8, W=2, max_t=4, grace=
                 trials[tid] = new_trial(tid, s.config)
                 sch.on_trial_add(trials[tid])
                 level[tid] = 0
+                first = levels[bq] if bq < len(levels) else max_t
                 if max_resource_attr:
-                    sym.check(s.config["epochs"] == levels[0], "C04.first-milestone", "new trial told to run to %s, first rung level is %s" % (s.config["epochs"], levels[0]))
-                target[tid] = levels[0]
+                    sym.check(s.config["epochs"] == first, "C04.first-milestone", "new trial (bracket %d) told to run to %s, its first rung level is %s" % (bq, s.config["epochs"], first))
+                target[tid] = first
                 resume_from[tid] = 0
                 total_cost[tid] = 0
                 sym.event("start t%d" % tid)
@@ -204,11 +221,13 @@ def obligations(tier):
         ("promotion,min,levels=1|2,max_t=8", dict(typ="promotion", mode="min", ckpt=True, explicit=[1, 2], max_t=8)),
         ("promotion,max,levels=1|3,max_t=4", dict(typ="promotion", mode="max", ckpt=True, explicit=[1, 3], max_t=4)),
         ("cost_promotion,min", dict(typ="cost_promotion", mode="min", ckpt=True, E=7)),
+        # three brackets sharing the rung system (levels 1,2,4, max_t 8): a promotion goes one rung up whatever bracket was drawn
+        ("promotion,min,B=3,max_t=8", dict(typ="promotion", mode="min", ckpt=True, B=3, max_t=8, E=7)),
         ("pasha,min", dict(typ="pasha", mode="min", ckpt=True, concrete_metrics=True, T=4, E=12, max_t=8)),
     ]
     for name, c in cfgs:
         p = dict(dict(T=3, E=E, W=2), **c)
-        goals = ("promotion", "pause", "end")
+        goals = ("promotion", "pause", "end") + (("bracket>=2",) if p.get("B", 1) >= 3 else ())
         obs.append(Ob("C04.a[%s]" % name, "props.c04:h_promotion", p,
                       bounds=dict(T=p["T"], E=p["E"], W=2, max_t=p.get("max_t", 4), levels="grace 1, rf 2"), goals=goals, split=sp,
                       budget_s=1800, may_be_incomplete=not quick))
